@@ -14,7 +14,7 @@ import (
 )
 
 func init() {
-	propertyRules["C19"] = []ruleFn{ruleCodecSym, ruleGobExported, ruleDecodeErr, ruleTypeSwitch, ruleHashInput, ruleCtor, ruleSig, ruleFixedRead, ruleTypedNil}
+	propertyRules["C19"] = []ruleFn{ruleCodecSym, ruleGobExported, ruleDecodeErr, ruleTypeSwitch, ruleHashInput, ruleCtor, ruleSig, ruleFixedRead, ruleTypedNil, ruleDecodeFresh}
 	propertyExplain["C19"] = "A-CODEC-SYM: for every type with EncodeBinary/DecodeBinary each field is read by the encoder on every successful path (or is a reasoned derived/cache field) and assigned by the decoder on every successful path; A-GOB-EXPORTED: structs handed to gob have only exported fields; G-DECODE-ERR: no decoder drops an error; A-TYPE-SWITCH: the recovery message packs every payload kind the library adds and each Get* reconstruction uses the kind and body type of the list it reads, copying every body field; A-HASH-INPUT: Hash() is Hash256 of the unsigned encoding (which covers every field except the cache) and block hash/sign/verify all feed GetHashData, which does not read the signature; P-CTOR: constructors use every named parameter in its role; P-SIG: Sign and Verify hash the message with the same function; Merkle parents hash left‖right. Collision resistance, ECDSA soundness and gob's robustness on arbitrary bytes are not decided."
 }
 
@@ -427,6 +427,19 @@ func ruleDecodeErr(c *RC) *RuleResult {
 		}
 		if n == 0 {
 			okDefault = false
+		}
+	}
+	if !kindSwitch && md != nil && okDefault {
+		// the body comes out of a table: the entry is called only when it is known to exist, and an array / slice table
+		// is indexed only within its bounds
+		for _, mem := range c.clusterFns(md) {
+			if why := tableDispatchHazard(mem); why != "" {
+				okDefault = false
+				r.fail("message.DecodeBinary/table-dispatch", c.Prog.Pos(mem.Decl), "the message decoder picks the body constructor from a table and "+why+": an unknown kind panics instead of failing cleanly")
+			}
+		}
+		if !okDefault {
+			return r
 		}
 	}
 	if okDefault {
@@ -905,6 +918,62 @@ func ruleHashInput(c *RC) *RuleResult {
 			}
 		}
 	}
+	// a memoised hash is a digest: wherever a field of type "pointer to a hash" of a payload or block type is given a
+	// non-nil value, a digest has been computed on the way (a cached "no hash yet" would stick for ever)
+	{
+		nmemo := 0
+		// the functions a Hash() method is made of
+		hashers := map[*FuncInfo]bool{}
+		var addH func(f *FuncInfo, depth int)
+		addH = func(f *FuncInfo, depth int) {
+			if hashers[f] || depth > 2 {
+				return
+			}
+			hashers[f] = true
+			for _, st := range c.A.FnSites[f] {
+				if st.Kind == "call" && st.Target != nil && st.Target.Pkg.PkgPath == consPath {
+					addH(st.Target, depth+1)
+				}
+			}
+		}
+		for _, fn := range c.Prog.sortedFuncs() {
+			if fn.Pkg.PkgPath == consPath && fn.RecvVar != nil && strings.HasSuffix(fn.Name, ".Hash") {
+				addH(fn, 0)
+			}
+		}
+		for _, fn := range c.Prog.sortedFuncs() {
+			if fn.Pkg.PkgPath != consPath || fn.RecvVar == nil || !hashers[fn] {
+				continue
+			}
+			for _, st := range c.A.FnSites[fn] {
+				if st.Kind != "write" || !strings.HasPrefix(st.Loc, "recv.") || strings.Count(st.Loc, ".") != 1 {
+					continue
+				}
+				if !c.isHashMemoField(fn.Recv, strings.TrimPrefix(st.Loc, "recv.")) {
+					continue
+				}
+				for _, sn := range st.Snaps {
+					if sn.Val != nil && sn.Val.K == KNil {
+						continue
+					}
+					nmemo++
+					r.Sites++
+					digest := false
+					for ev := range sn.Events {
+						if strings.Contains(ev, "crypto:Hash") || strings.Contains(ev, "crypto/sha") {
+							digest = true
+						}
+					}
+					if digest {
+						r.ok(fn.Name + ": the memoised hash is stored after a digest was computed")
+					} else {
+						r.fail(fn.Name+"/memo-without-digest", c.Prog.Pos(st.Node), "the hash memo of "+fn.Recv+" is given a value on a path that has not computed a digest {"+sn.Trail+"}: a placeholder (the zero hash of an incomplete object) is cached and returned for ever after")
+					}
+				}
+			}
+		}
+		_ = nmemo // no memo at all is fine
+	}
 	// blocks
 	for _, bt := range []string{"neoBlock", "amevBlock", "preBlock"} {
 		ghd := c.Prog.ByName["internal/consensus:"+bt+".GetHashData"]
@@ -1271,10 +1340,13 @@ func ruleFixedRead(c *RC) *RuleResult {
 		return nil, ""
 	}
 	// does some function of the package compare len(x.F) for this field (a check at the read, or in a decoder)?
+	// the functions a received payload is decoded by: the decoders of the wrapper, the message and the body types (a
+	// compact inside a gob-filled struct is filled by reflection — its own DecodeBinary is never run), and what they call
+	onDecodePath := c.decodePathFuncs()
 	lenChecked := func(fv *types.Var, within *FuncInfo) (bool, bool) {
 		here, anywhere := false, false
 		for _, fn := range c.Prog.sortedFuncs() {
-			if fn.Pkg.PkgPath != consPath {
+			if fn.Pkg.PkgPath != consPath || fn != within && !onDecodePath[fn] {
 				continue
 			}
 			ast.Inspect(fn.Decl.Body, func(n ast.Node) bool {
@@ -1536,4 +1608,301 @@ func readsAny(read map[string]bool, fields string) bool {
 		}
 	}
 	return false
+}
+
+// isHashMemoField: field f of the consensus type tn has type pointer-to-hash (a byte array).
+func (c *RC) isHashMemoField(tn, f string) bool {
+	st := c.Prog.Structs["internal/consensus:"+tn]
+	if st == nil {
+		return false
+	}
+	for i := 0; i < st.NumFields(); i++ {
+		if st.Field(i).Name() != f {
+			continue
+		}
+		pt, ok := st.Field(i).Type().(*types.Pointer)
+		if !ok {
+			return false
+		}
+		arr, ok := pt.Elem().Underlying().(*types.Array)
+		if !ok {
+			return false
+		}
+		b, ok := arr.Elem().Underlying().(*types.Basic)
+		return ok && b.Kind() == types.Uint8
+	}
+	return false
+}
+
+// decodePathFuncs: the functions a received payload is decoded by — the decoders of the wrapper, the message and the body
+// types (a compact inside a gob-filled struct is filled by reflection: its own DecodeBinary is never run) and what they call.
+func (c *RC) decodePathFuncs() map[*FuncInfo]bool {
+	onDecodePath := map[*FuncInfo]bool{}
+	var addD func(f *FuncInfo, depth int)
+	addD = func(f *FuncInfo, depth int) {
+		if onDecodePath[f] || depth > 4 {
+			return
+		}
+		onDecodePath[f] = true
+		for _, st := range c.A.FnSites[f] {
+			if st.Kind == "call" && st.Target != nil && st.Target.Pkg.PkgPath == consPath {
+				addD(st.Target, depth+1)
+			}
+		}
+		// helpers walked inline have no call site of their own left: follow the syntax as well
+		ast.Inspect(f.Decl.Body, func(n ast.Node) bool {
+			if call, ok := n.(*ast.CallExpr); ok {
+				if fo, ok := typeutil.Callee(f.Pkg.TypesInfo, call).(*types.Func); ok {
+					if t := c.Prog.Funcs[fo.Origin()]; t != nil && t.Pkg.PkgPath == consPath && t.Decl != nil && t.Decl.Body != nil {
+						addD(t, depth+1)
+					}
+				}
+			}
+			return true
+		})
+	}
+	for _, fn := range c.Prog.sortedFuncs() {
+		if fn.Pkg.PkgPath != consPath || fn.Recv == "" {
+			continue
+		}
+		short := strings.TrimPrefix(fn.Name, fn.Recv+".")
+		if short == "UnmarshalUnsigned" || short == "DecodeBinary" && (fn.Recv == "Payload" || c.Prog.ByName["internal/consensus:"+fn.Recv+".GetChangeView"] != nil || c.isBodyType(fn.Recv)) {
+			addD(fn, 0)
+		}
+	}
+	return onDecodePath
+}
+
+// G-DECODE-FRESH: gob leaves a destination field alone when the wire omits it (zero values are not sent), so a decoder
+// that lets gob write into storage that already holds something keeps part of the old content. On the decode path gob
+// may only fill fresh storage: a local made by new / a composite literal, the address of a local variable, or a field
+// of the receiver that the function has just given a new object.
+func ruleDecodeFresh(c *RC) *RuleResult {
+	r := &RuleResult{Rule: "G-DECODE-FRESH", Kind: "OWN", Doc: "on the decode path gob.Decoder.Decode writes only into fresh storage (gob does not reset what the wire omits): decoding twice into one object must not mix two payloads"}
+	n := 0
+	for fn := range c.decodePathFuncs() {
+		info := fn.Pkg.TypesInfo
+		fresh := map[*types.Var]bool{}
+		stale := map[*types.Var]bool{}
+		isNew := func(e ast.Expr) bool {
+			switch x := ast.Unparen(e).(type) {
+			case *ast.CallExpr:
+				if id, ok := x.Fun.(*ast.Ident); ok && id.Name == "new" {
+					return true
+				}
+			case *ast.UnaryExpr:
+				if _, ok := ast.Unparen(x.X).(*ast.CompositeLit); ok && x.Op == token.AND {
+					return true
+				}
+			}
+			return false
+		}
+		newFields := map[string]token.Pos{}
+		ast.Inspect(fn.Decl.Body, func(nd ast.Node) bool {
+			as, ok := nd.(*ast.AssignStmt)
+			if !ok || len(as.Lhs) != len(as.Rhs) {
+				return true
+			}
+			for i, l := range as.Lhs {
+				switch x := ast.Unparen(l).(type) {
+				case *ast.Ident:
+					v, _ := info.Defs[x].(*types.Var)
+					if v == nil {
+						v, _ = info.Uses[x].(*types.Var)
+					}
+					if v == nil {
+						continue
+					}
+					if isNew(as.Rhs[i]) {
+						fresh[v] = true
+					} else {
+						stale[v] = true
+					}
+				case *ast.SelectorExpr:
+					if isNew(as.Rhs[i]) {
+						newFields[exprText(x)] = as.Pos()
+					}
+				}
+			}
+			return true
+		})
+		ast.Inspect(fn.Decl.Body, func(nd ast.Node) bool {
+			call, ok := nd.(*ast.CallExpr)
+			if !ok || len(call.Args) != 1 {
+				return true
+			}
+			fo, _ := typeutil.Callee(info, call).(*types.Func)
+			if fo == nil || fo.Pkg() == nil || fo.Pkg().Path() != "encoding/gob" || fo.Name() != "Decode" {
+				return true
+			}
+			n++
+			r.Sites++
+			arg := ast.Unparen(call.Args[0])
+			why := ""
+			switch x := arg.(type) {
+			case *ast.Ident:
+				v, _ := info.Uses[x].(*types.Var)
+				switch {
+				case v != nil && fresh[v] && !stale[v]:
+				case v != nil && v == fn.RecvVar:
+					why = "the receiver itself"
+				default:
+					why = "a variable that is not known to hold a new object"
+				}
+			case *ast.UnaryExpr:
+				id, isId := ast.Unparen(x.X).(*ast.Ident)
+				if x.Op == token.AND && isId {
+					if v, _ := info.Uses[id].(*types.Var); v != nil && !v.IsField() && v != fn.RecvVar && paramIndexOf(fn, v) < 0 {
+						break // the address of a local variable
+					}
+				}
+				why = "the address of existing storage (" + exprText(x.X) + ")"
+			case *ast.SelectorExpr:
+				if pos, ok := newFields[exprText(x)]; ok && pos < call.Pos() {
+					break
+				}
+				why = "a field that may already hold an object (" + exprText(x) + ")"
+			default:
+				why = "storage of unknown age"
+			}
+			if why == "" {
+				r.ok(fn.Name + ": gob fills fresh storage")
+			} else {
+				r.fail(fn.Name+"/decode-into-existing", c.Prog.Pos(call), fn.Name+" lets gob decode into "+why+": gob does not touch fields the wire omits (zero values), so a second decode into the same object keeps parts of the first payload (wrong validator index / height and a hash that matches neither)")
+			}
+			return true
+		})
+	}
+	if n < 8 {
+		r.unresolved(fmt.Sprintf("gob Decode calls on the decode path (found %d)", n))
+	}
+	if len(r.Samples) > 3 {
+		r.Samples = r.Samples[:3]
+	}
+	return r
+}
+
+// tableDispatchHazard: fn fetches a function from a package-level table by index and calls it without making sure the
+// entry exists (comma-ok / nil test that returns) or, for an array or slice, that the index is within bounds.
+func tableDispatchHazard(fn *FuncInfo) string {
+	info := fn.Pkg.TypesInfo
+	isTable := func(e ast.Expr) (types.Type, bool) {
+		id, ok := ast.Unparen(e).(*ast.Ident)
+		if !ok {
+			return nil, false
+		}
+		v, ok := info.Uses[id].(*types.Var)
+		if !ok || v.Pkg() == nil || v.Parent() != v.Pkg().Scope() {
+			return nil, false
+		}
+		var el types.Type
+		switch t := v.Type().Underlying().(type) {
+		case *types.Map:
+			el = t.Elem()
+		case *types.Array:
+			el = t.Elem()
+		case *types.Slice:
+			el = t.Elem()
+		default:
+			return nil, false
+		}
+		if _, isFn := el.Underlying().(*types.Signature); !isFn {
+			return nil, false
+		}
+		return v.Type().Underlying(), true
+	}
+	// guards: if-statements whose body returns; the identifiers and len() arguments their conditions mention
+	guardIdents := map[types.Object]bool{}
+	guardLen := map[string]bool{}
+	guardConstCmp := map[string]bool{}
+	ast.Inspect(fn.Decl.Body, func(n ast.Node) bool {
+		ifs, ok := n.(*ast.IfStmt)
+		if !ok || len(ifs.Body.List) == 0 {
+			return true
+		}
+		if _, ret := ifs.Body.List[len(ifs.Body.List)-1].(*ast.ReturnStmt); !ret {
+			return true
+		}
+		ast.Inspect(ifs.Cond, func(m ast.Node) bool {
+			switch x := m.(type) {
+			case *ast.Ident:
+				if o := info.Uses[x]; o != nil {
+					guardIdents[o] = true
+				}
+			case *ast.CallExpr:
+				if id, ok := x.Fun.(*ast.Ident); ok && id.Name == "len" && len(x.Args) == 1 {
+					guardLen[exprText(x.Args[0])] = true
+				}
+			case *ast.BinaryExpr:
+				for _, side := range [][2]ast.Expr{{x.X, x.Y}, {x.Y, x.X}} {
+					if tv, ok := info.Types[side[1]]; ok && tv.Value != nil {
+						guardConstCmp[exprText(ast.Unparen(side[0]))] = true
+						if call, ok := ast.Unparen(side[0]).(*ast.CallExpr); ok && len(call.Args) == 1 {
+							guardConstCmp[exprText(ast.Unparen(call.Args[0]))] = true // int(k) >= N
+						}
+					}
+				}
+			}
+			return true
+		})
+		return true
+	})
+	why := ""
+	bounds := func(tt types.Type, ix *ast.IndexExpr) string {
+		switch t := tt.(type) {
+		case *types.Array:
+			if b, ok := info.TypeOf(ix.Index).Underlying().(*types.Basic); ok && (b.Kind() == types.Uint8) && t.Len() >= 256 {
+				return ""
+			}
+		case *types.Map:
+			return ""
+		}
+		if guardLen[exprText(ix.X)] || guardConstCmp[exprText(ast.Unparen(ix.Index))] {
+			return ""
+		}
+		return "indexes " + exprText(ix.X) + " without a bounds check"
+	}
+	ast.Inspect(fn.Decl.Body, func(n ast.Node) bool {
+		switch x := n.(type) {
+		case *ast.CallExpr:
+			if ix, ok := ast.Unparen(x.Fun).(*ast.IndexExpr); ok {
+				if tt, ok := isTable(ix.X); ok {
+					why = "calls the entry " + exprText(ix.X) + "[…] without testing that it exists"
+					_ = tt
+				}
+			}
+		case *ast.AssignStmt:
+			if len(x.Rhs) != 1 {
+				return true
+			}
+			ix, ok := ast.Unparen(x.Rhs[0]).(*ast.IndexExpr)
+			if !ok {
+				return true
+			}
+			tt, ok := isTable(ix.X)
+			if !ok {
+				return true
+			}
+			if b := bounds(tt, ix); b != "" && why == "" {
+				why = b
+			}
+			guarded := false
+			for _, l := range x.Lhs {
+				if id, ok := l.(*ast.Ident); ok {
+					o := info.Defs[id]
+					if o == nil {
+						o = info.Uses[id]
+					}
+					if o != nil && guardIdents[o] {
+						guarded = true
+					}
+				}
+			}
+			if !guarded && why == "" {
+				why = "uses the entry of " + exprText(ix.X) + " without testing that it exists (comma-ok or a nil test that returns)"
+			}
+		}
+		return true
+	})
+	return why
 }
